@@ -191,6 +191,22 @@ def _run_case(key, data, cli_mode):
                                    f"({se.getvalue()[:160]!r}) (call #{rnd})")
             outs.append(oc)
         return outs[0]
+    if isinstance(cli_mode, tuple) and cli_mode and cli_mode[0] == "read_file":
+        # the read_file entry point, with the file stored under the given name (no extension, unknown extension, ...)
+        import sharepoint2text
+        with tempfile.TemporaryDirectory(dir="/var/tmp") as td:
+            p = os.path.join(td, cli_mode[1])
+            with open(p, "wb") as fh:
+                fh.write(data)
+            so, se = io.StringIO(), io.StringIO()
+            try:
+                with contextlib.redirect_stdout(so), contextlib.redirect_stderr(se):
+                    n = sum(1 for _ in sharepoint2text.read_file(p))
+                return "ok", str(n)
+            except ExtractionError as e:
+                return "family", type(e).__name__
+            except Exception as e:  # noqa
+                return "foreign", f"{type(e).__module__}.{type(e).__name__}: {str(e)[:200]} (read_file on a file named {cli_mode[1]!r})"
     # CLI
     from sharepoint2text import cli
     import sharepoint2text
